@@ -56,23 +56,39 @@ var c06Boundary = map[string]string{}
 // c06GuardedReaders: fully proved readers of received bytes whose precondition every caller,
 // including boundary functions, must establish (or be a reviewed caller).
 var c06GuardedReaders = map[string]bool{
-	"ss2022.(*ShadowStreamConn).read":          true,
-	"ss2022.ValidateUnixEpochTimestamp":        true,
-	"ss2022.ParseTCPRequestFixedLengthHeader":  true,
-	"ss2022.ParseTCPResponseHeader":            true,
-	"ss2022.ParseSessionIDAndPacketID":         true,
-	"socks5.ValidatePacketHeader":              true,
+	"ss2022.(*ShadowStreamConn).read":             true,
+	"ss2022.ValidateUnixEpochTimestamp":           true,
+	"ss2022.ParseTCPRequestFixedLengthHeader":     true,
+	"ss2022.ParseTCPResponseHeader":               true,
+	"ss2022.ParseSessionIDAndPacketID":            true,
+	"socks5.ValidatePacketHeader":                 true,
 	"ss2022.(*ShadowStreamCipher).DecryptInPlace": true,
-	"ss2022.(*ShadowStreamCipher).DecryptTo":   true,
+	"ss2022.(*ShadowStreamCipher).DecryptTo":      true,
+}
+
+// c06ProvedHelpers: unexported functions called only from boundary functions that are fully
+// proved on the reference tree. They never inherit their callers' boundary status (that is for
+// helpers newly extracted from a boundary function): a change that makes one of them unprovable
+// is reported.
+var c06ProvedHelpers = map[string]bool{
+	"ss2022.lengthExtendSalt":                          true,
+	"ss2022.(*SlidingWindowFilter).unmaskedBlockIndex": true,
+	"ss2022.(*SlidingWindowFilter).bitIndex":           true,
+	"ss2022.(*SlidingWindowFilter).blockIndex":         true,
+	"ss2022.getWriteBuf":                               true,
+	"ss2022.(*ShadowStreamConn).getReadBuf":            true,
+	"dns.(*Resolver).doTCP":                            true,
+	"dns.(*resultBuilder).isDone":                      true,
+	"dns.(*resultBuilder).parseMsg":                    true,
 }
 
 // c06BoundaryCallReviewed: calls from a boundary function into a fully proved reader whose
 // precondition depends on the boundary function's buffer invariant, keyed "caller -> callee".
 var c06BoundaryCallReviewed = map[string]string{
-	"ss2022.(*ShadowStreamConn).Read -> ss2022.(*ShadowStreamConn).read":                        "the buffer is getReadBuf(): allocated with slices.Grow(nil, streamReadMinBufferSize) on first use and only ever resliced; too small a buffer is a designed panic on the first read of every connection, not an input-dependent one",
-	"ss2022.(*ShadowStreamConn).WriteTo -> ss2022.(*ShadowStreamConn).read":                     "same buffer as Read: getReadBuf()",
-	"ss2022.(*ShadowStreamConn).writeToShadowStreamConn -> ss2022.(*ShadowStreamConn).read":     "the buffer is the peer connection's writeBuf[2+tagSize:], allocated by getWriteBuf() with streamWriteBufferSize = 2+tagSize+streamReadMinBufferSize",
-	"ss2022.(*ShadowStreamClientConn).initRead -> ss2022.ParseTCPResponseHeader":                "plaintext is the opened response header of exactly 1+8+len(PSK)+2 bytes (bufferLen arithmetic above the call) and requestSaltLen == len(PSK) is fixed when the request salt is generated in DialStream; the relation between the two fields is not expressible as a per-field bound",
+	"ss2022.(*ShadowStreamConn).Read -> ss2022.(*ShadowStreamConn).read":                    "the buffer is getReadBuf(): allocated with slices.Grow(nil, streamReadMinBufferSize) on first use and only ever resliced; too small a buffer is a designed panic on the first read of every connection, not an input-dependent one",
+	"ss2022.(*ShadowStreamConn).WriteTo -> ss2022.(*ShadowStreamConn).read":                 "same buffer as Read: getReadBuf()",
+	"ss2022.(*ShadowStreamConn).writeToShadowStreamConn -> ss2022.(*ShadowStreamConn).read": "the buffer is the peer connection's writeBuf[2+tagSize:], allocated by getWriteBuf() with streamWriteBufferSize = 2+tagSize+streamReadMinBufferSize",
+	"ss2022.(*ShadowStreamClientConn).initRead -> ss2022.ParseTCPResponseHeader":            "plaintext is the opened response header of exactly 1+8+len(PSK)+2 bytes (bufferLen arithmetic above the call) and requestSaltLen == len(PSK) is fixed when the request salt is generated in DialStream; the relation between the two fields is not expressible as a per-field bound",
 }
 
 func c06BoundaryReason(name string) (string, bool) {
@@ -199,50 +215,57 @@ type c06PanicSite struct {
 
 // c06PanicTable: every function that contains an explicit panic, and how it is discharged.
 var c06PanicTable = map[string]string{
-	"conn.(Addr).IP":                       "addr:IsIP",
-	"conn.(Addr).IPPort":                   "addr:IsIP",
-	"conn.(Addr).Domain":                   "addr:IsDomain",
-	"conn.(Addr).Host":                     "addr:IsValid",
-	"conn.(Addr).ResolveIP":                "addr:IsValid",
-	"conn.(Addr).ResolveIPPort":            "addr:IsValid",
-	"conn.MustAddrFromDomainPort":          "const-args",
-	"portset.panicOnZeroPort":              "portset",
-	"portset.(*PortSet).AddRange":          "portset",
-	"bitset.(BitSet).checkIndex":           "bitset",
-	"router.(*RouteConfig).Route":          "config-time",
-	"router.(*Router).match":               "default-route",
-	"service.(*ClientConfig).tcpNetwork":   "config-time",
-	"ss2022.intToUint16":                   "bounds-contract",
-	"ss2022.(*ShadowStreamConn).read":      "bounds-requires",
-	"socks5.AppendAddrFromConnAddr":        "domain-length",
-	"socks5.LengthOfAddrFromConnAddr":      "domain-length",
-	"socks5.clientNegotiateAuthMethod":     "bounds-requires",
-	"socks5.clientDoUsernamePasswordAuth":  "bounds-requires",
-	"socks5.clientDoRequest":               "bounds-requires",
-	"socks5.serverHandleMethodSelection":   "bounds-requires",
-	"socks5.serverHandleUsernamePassword":  "bounds-requires",
-	"socks5.serverHandleRequest":           "bounds-requires",
+	"conn.(Addr).IP":                      "addr:IsIP",
+	"conn.(Addr).IPPort":                  "addr:IsIP",
+	"conn.(Addr).Domain":                  "addr:IsDomain",
+	"conn.(Addr).Host":                    "addr:IsValid",
+	"conn.(Addr).ResolveIP":               "addr:IsValid",
+	"conn.(Addr).ResolveIPPort":           "addr:IsValid",
+	"conn.MustAddrFromDomainPort":         "const-args",
+	"portset.panicOnZeroPort":             "portset",
+	"portset.(*PortSet).AddRange":         "portset",
+	"bitset.(BitSet).checkIndex":          "bitset",
+	"router.(*RouteConfig).Route":         "config-time",
+	"router.(*Router).match":              "default-route",
+	"service.(*ClientConfig).tcpNetwork":  "config-time",
+	"ss2022.intToUint16":                  "bounds-contract",
+	"ss2022.(*ShadowStreamConn).read":     "bounds-requires",
+	"socks5.AppendAddrFromConnAddr":       "domain-length",
+	"socks5.LengthOfAddrFromConnAddr":     "domain-length",
+	"socks5.clientNegotiateAuthMethod":    "bounds-requires",
+	"socks5.clientDoUsernamePasswordAuth": "bounds-requires",
+	"socks5.clientDoRequest":              "bounds-requires",
+	"socks5.serverHandleMethodSelection":  "bounds-requires",
+	"socks5.serverHandleUsernamePassword": "bounds-requires",
+	"socks5.serverHandleRequest":          "bounds-requires",
 }
 
 // c06AddrReviewed: call sites of panicking conn.Addr accessors that are not guarded by a
-// dominating predicate in the same function, keyed by "<enclosing function>:<call>", each with
+// dominating predicate in the same function, keyed by "<enclosing function>:<accessor> on <role and type of the receiver expression>"
+// (names of receivers, parameters, locals and fields do not enter the key), each with
 // the reason the receiver is known to be of the required kind.
 var c06AddrReviewed = map[string]string{
-	"ss2022.(*UDPClient).NewSession:c.addr.ResolveIPPort(ctx, c.network)":                         "server address of a configured client: service.(*ClientConfig).checkAddresses refuses a UDP-enabled client without a valid address (C18-R4)",
-	"direct.(*ShadowsocksNoneUDPClient).NewSession:c.addr.ResolveIPPort(ctx, c.network)":          "server address of a configured client: validated by checkAddresses (C18-R4)",
-	"direct.(*Socks5UDPClient).newSession:addr.ResolveIPPort(ctx, c.networkIP)":                    "address parsed from the SOCKS5 UDP ASSOCIATE reply on its success edge (socks5.ClientUDPAssociate returns a non-zero Addr or an error)",
-	"direct.(*DirectPacketClientPacker).updateDomainIPCache:targetAddr.Domain()":                   "called from PackInPlace only on the !IsIP() edge with a target address that came out of a server unpacker's successful parse (never the zero Addr)",
-	"direct.(*DirectPacketClientPacker).updateDomainIPCache:targetAddr.ResolveIP(ctx, p.network)": "same as above: non-zero target address",
-	"socks5.AppendAddrFromConnAddr:addr.Domain()":                                                  "after the IsIP() early return; callers pass request/target addresses that were parsed successfully or configured (non-zero)",
-	"socks5.WriteAddrFromConnAddr:addr.Domain()":                                                   "after the IsIP() early return; non-zero target address",
-	"socks5.LengthOfAddrFromConnAddr:addr.Domain()":                                                "after the IsIP() early return; non-zero target address",
-	"router.(DestDomainCriterion).Meet:requestInfo.TargetAddr.Domain()":                            "after the IsIP() early return; TargetAddr of a request is produced by a successful handshake/packet parse or a validated configuration value (never the zero Addr: socks5 parsers, hostHeaderToAddr and conn.ParseAddr return an error instead)",
-	"router.(DestResolvedIPCriterion).Meet:requestInfo.TargetAddr.Domain()":                        "after the IsIP() branch returned; non-zero TargetAddr (see DestDomainCriterion)",
-	"router.(DestDomainExpectedIPCriterion).Meet:requestInfo.TargetAddr.Domain()":                  "after the IsIP() early return; non-zero TargetAddr",
-	"router.(DestResolvedGeoIPCountryCriterion).Meet:requestInfo.TargetAddr.Domain()":              "after the IsIP() branch returned; non-zero TargetAddr",
-	"netio.(*UDPClientSession).AppendPack:destAddr.Domain()":                                       "else branch of IsIP(); destination of a datagram accepted by a server unpacker (non-zero)",
-	"netio.(*UDPClientSession).AppendPack:destAddr.ResolveIP(ctx, s.network)":                      "same: non-zero destination address",
-	"direct.(*DirectPacketServerPackUnpacker).PackInPlace:p.targetAddr.IPPort()":                   "executed only in target-only mode, which service.(*ServerConfig).Initialize builds only with an IP tunnelRemoteAddress (decided by C18-R4; fixed by 2f1e5cc)",
+	"ss2022.(*UDPClient).NewSession:ResolveIPPort on recv.field:conn.Addr":                "server address of a configured client: service.(*ClientConfig).checkAddresses refuses a UDP-enabled client without a valid address (C18-R4)",
+	"direct.(*ShadowsocksNoneUDPClient).NewSession:ResolveIPPort on recv.field:conn.Addr": "server address of a configured client: validated by checkAddresses (C18-R4)",
+	"direct.(*Socks5UDPClient).newSession:ResolveIPPort on param:conn.Addr":               "address parsed from the SOCKS5 UDP ASSOCIATE reply on its success edge (socks5.ClientUDPAssociate returns a non-zero Addr or an error)",
+	"direct.(*DirectPacketClientPacker).updateDomainIPCache:Domain on param:conn.Addr":    "called from PackInPlace only on the !IsIP() edge with a target address that came out of a server unpacker's successful parse (never the zero Addr)",
+	"direct.(*DirectPacketClientPacker).updateDomainIPCache:ResolveIP on param:conn.Addr": "same as above: non-zero target address",
+	"socks5.AppendAddrFromConnAddr:Domain on param:conn.Addr":                             "after the IsIP() early return; callers pass request/target addresses that were parsed successfully or configured (non-zero)",
+	"socks5.WriteAddrFromConnAddr:Domain on param:conn.Addr":                              "after the IsIP() early return; non-zero target address",
+	"socks5.LengthOfAddrFromConnAddr:Domain on param:conn.Addr":                           "after the IsIP() early return; non-zero target address",
+	"router.(DestDomainCriterion).Meet:Domain on param.field:conn.Addr":                   "after the IsIP() early return; TargetAddr of a request is produced by a successful handshake/packet parse or a validated configuration value (never the zero Addr: socks5 parsers, hostHeaderToAddr and conn.ParseAddr return an error instead)",
+	"router.(DestResolvedIPCriterion).Meet:Domain on param.field:conn.Addr":               "after the IsIP() branch returned; non-zero TargetAddr (see DestDomainCriterion)",
+	"router.(DestDomainExpectedIPCriterion).Meet:Domain on param.field:conn.Addr":         "after the IsIP() early return; non-zero TargetAddr",
+	"router.(DestResolvedGeoIPCountryCriterion).Meet:Domain on param.field:conn.Addr":     "after the IsIP() branch returned; non-zero TargetAddr",
+	"netio.(*UDPClientSession).AppendPack:Domain on param:conn.Addr":                      "else branch of IsIP(); destination of a datagram accepted by a server unpacker (non-zero)",
+	"netio.(*UDPClientSession).AppendPack:ResolveIP on param:conn.Addr":                   "same: non-zero destination address",
+	"direct.(*DirectPacketServerPackUnpacker).PackInPlace:IPPort on recv.field:conn.Addr": "executed only in target-only mode, which service.(*ServerConfig).Initialize builds only with an IP tunnelRemoteAddress (decided by C18-R4; fixed by 2f1e5cc)",
+}
+
+// c06AddrReviewedCount: number of reviewed sites sharing one role key (default 1); a further
+// unguarded call of the same shape in the same function is a new, unreviewed site.
+var c06AddrReviewedCount = map[string]int{
+	"direct.(*DirectPacketClientPacker).updateDomainIPCache:Domain on param:conn.Addr": 2,
 }
 
 func c06R1(p *Prog, r *Report) {
@@ -283,6 +306,7 @@ func c06R1(p *Prog, r *Report) {
 		if relPkg(pkg.PkgPath) == "conn" {
 			// the accessors themselves
 		}
+		reviewedSeen := map[string]int{}
 		p.AllFuncs(pkg, func(fc *FuncCtx) {
 			for _, ctx := range allCtxs(p, fc) {
 				for _, cs := range ctx.AllCalls() {
@@ -296,13 +320,20 @@ func c06R1(p *Prog, r *Report) {
 						continue // decided by C18-R4 with the same rule
 					}
 					nAcc++
-					key := ctx.Name + ":" + exprStr(cs.Call)
+					key := ctx.Name + ":" + cs.Fn.Name()
+					if sel, isSel := ast.Unparen(cs.Call.Fun).(*ast.SelectorExpr); isSel {
+						key += " on " + roleOf(ctx, sel.X)
+					}
 					if addrGuarded(ctx, cs.Call, cs.V) || c06DomainAfterNotIP(ctx, cs) {
 						nLocal++
 						r.OK(rule, key, cs.Pos(), "dominated by the matching predicate")
 						continue
 					}
 					reason, ok := c06AddrReviewed[key]
+					reviewedSeen[key]++
+					if ok && reviewedSeen[key] > max(1, c06AddrReviewedCount[key]) {
+						ok = false // one reviewed site per key: a second unguarded call of the same shape is a new site
+					}
 					r.Check(ok, rule, key, cs.Pos(), "reviewed: "+reason, exprStr(cs.Call)+" can panic: no dominating "+strings.Join(addrAccessorNeeds[cs.Fn.Name()], "/")+"() test on this receiver in "+ctx.Name+", and the site is not a reviewed one — a zero or wrong-kind address computed from a request crashes the process")
 				}
 			}
@@ -472,7 +503,7 @@ func c06R1(p *Prog, r *Report) {
 	}
 	// 7. bitset: reviewed call sites
 	bitsetReviewed := map[string]string{
-		"router.(*RouteConfig).Route:sourceServerSet.Set(uint(index))":                                "index comes from serverIndexByName, whose values are positions in the server list; the set was created with capacity len(serverIndexByName)",
+		"router.(*RouteConfig).Route:sourceServerSet.Set(uint(index))":                              "index comes from serverIndexByName, whose values are positions in the server list; the set was created with capacity len(serverIndexByName)",
 		"router.(SourceServerCriterion).Meet:bitset.BitSet(c).IsSet(uint(requestInfo.ServerIndex))": "ServerIndex is the position of the serving server in the same list the set's capacity was taken from (service.Config.Manager passes i to Initialize)",
 	}
 	for _, pkg := range p.All {
@@ -494,18 +525,18 @@ func c06R1(p *Prog, r *Report) {
 		})
 	}
 	// 8. single-value type assertions
+	// keyed by "<enclosing function>:<role of the operand>.(<asserted type>)"; the operand is
+	// followed through single-definition locals to the call that produced it, so the key names
+	// the producing API rather than a variable.
 	assertReviewed := map[string]string{
-		"httpproxy.(readBufferedNetioConnReaderFrom).ReadFrom:c.Conn.(io.ReaderFrom)":                  "this wrapper type is only constructed (newReadBufferedNetioConn) when the inner connection implements io.ReaderFrom",
-		"conn.(*ListenConfig).ListenTCP:ln.(*net.TCPListener)":                                          "net.ListenConfig.Listen on a tcp* network returns a *net.TCPListener",
-		"conn.(*ListenConfig).ListenUDP:pc.(*net.UDPConn)":                                              "net.ListenConfig.ListenPacket on a udp* network returns a *net.UDPConn",
-		"conn.(*Dialer).DialTCP:c.(*net.TCPConn)":                                                       "net.Dialer.DialContext on a tcp* network returns a *net.TCPConn",
-		"conn.(*Dialer).DialUDP:c.(*net.UDPConn)":                                                       "net.Dialer.DialContext on a udp* network returns a *net.UDPConn",
-		"conn.(*ListenConfig).ListenUDPMmsgConn:pc.(*net.UDPConn)":                                      "net.ListenConfig.ListenPacket on a udp* network returns a *net.UDPConn",
-		"conn.(*Dialer).DialUDPMmsgConn:nc.(*net.UDPConn)":                                              "net.Dialer.DialContext on a udp* network returns a *net.UDPConn",
-		"service.(*UDPNATRelay).getQueuedPacket:s.queuedPacketPool.Get().(*natQueuedPacket)":            "sync.Pool with New returning exactly this type; Put only receives this type",
-		"service.(*UDPSessionRelay).getQueuedPacket:s.queuedPacketPool.Get().(*sessionQueuedPacket)":    "sync.Pool with New returning exactly this type",
-		"service.(*UDPTransparentRelay).getQueuedPacket:s.queuedPacketPool.Get().(*transparentQueuedPacket)": "sync.Pool with New returning exactly this type",
-		"service.(*TCPRelay).handleConn:clientTCPConn.RemoteAddr().(*net.TCPAddr)":                      "RemoteAddr of a *net.TCPConn is always a *net.TCPAddr",
+		"httpproxy.(readBufferedNetioConnReaderFrom).ReadFrom:recv.field:netio.Conn.(io.ReaderFrom)":                       "this wrapper type is only constructed (newReadBufferedNetioConn) when the inner connection implements io.ReaderFrom",
+		"conn.(*ListenConfig).ListenTCP:call (*github.com/database64128/tfo-go/v2.ListenConfig).Listen.(*net.TCPListener)": "tfo.ListenConfig.Listen on a tcp* network returns a *net.TCPListener",
+		"conn.(*ListenConfig).ListenUDP:call (*net.ListenConfig).ListenPacket.(*net.UDPConn)":                              "net.ListenConfig.ListenPacket on a udp* network returns a *net.UDPConn",
+		"conn.(*Dialer).DialTCP:call (*github.com/database64128/tfo-go/v2.Dialer).DialContext.(*net.TCPConn)":              "tfo.Dialer.DialContext on a tcp* network returns a *net.TCPConn",
+		"conn.(*Dialer).DialUDP:call (*net.Dialer).DialContext.(*net.UDPConn)":                                             "net.Dialer.DialContext on a udp* network returns a *net.UDPConn",
+		"conn.(*ListenConfig).ListenUDPMmsgConn:call (*net.ListenConfig).ListenPacket.(*net.UDPConn)":                      "net.ListenConfig.ListenPacket on a udp* network returns a *net.UDPConn",
+		"conn.(*Dialer).DialUDPMmsgConn:call (*net.Dialer).DialContext.(*net.UDPConn)":                                     "net.Dialer.DialContext on a udp* network returns a *net.UDPConn",
+		"service.(*TCPRelay).handleConn:call (*net.conn).RemoteAddr.(*net.TCPAddr)":                                        "RemoteAddr of a *net.TCPConn is always a *net.TCPAddr",
 	}
 	nTA := 0
 	for _, pkg := range p.All {
@@ -542,7 +573,23 @@ func c06R1(p *Prog, r *Report) {
 						}
 						_ = info
 						nTA++
-						key := ctx.Name + ":" + exprStr(ta)
+						asserted := types.TypeString(info.TypeOf(ta.Type), func(p *types.Package) string { return p.Name() })
+						key := ctx.Name + ":" + roleOf(ctx, ctx.producer(ta.X)) + ".(" + asserted + ")"
+						if call, isCall := ast.Unparen(ctx.producer(ta.X)).(*ast.CallExpr); isCall {
+							if sel, isSel := ast.Unparen(call.Fun).(*ast.SelectorExpr); isSel && (sel.Sel.Name == "RemoteAddr" || sel.Sel.Name == "LocalAddr") {
+								if rt := info.TypeOf(sel.X); rt != nil {
+									rs := types.TypeString(rt, nil)
+									if (rs == "*net.TCPConn" && asserted == "*net.TCPAddr") || (rs == "*net.UDPConn" && asserted == "*net.UDPAddr") {
+										r.OK(rule, key, p.posStr(ta.Pos()), "library fact: "+sel.Sel.Name+" of a "+rs+" is a "+asserted)
+										return true
+									}
+								}
+							}
+						}
+						if why, okp := c06TypedPool(p, ctx, ta); okp {
+							r.OK(rule, key, p.posStr(ta.Pos()), why)
+							return true
+						}
 						reason, okr := assertReviewed[key]
 						r.Check(okr, rule, key, p.posStr(ta.Pos()), "reviewed: "+reason, "a single-value type assertion panics when the dynamic type differs, and this one is not a reviewed site")
 						return true
@@ -699,7 +746,7 @@ func c06R2(p *Prog, r *Report) {
 	for changed := true; changed; {
 		changed = false
 		for name := range unexported {
-			if _, isB := c06BoundaryReason(name); isB || inherited[name] != "" || len(callers[name]) == 0 || !needsHelp[name] {
+			if _, isB := c06BoundaryReason(name); isB || inherited[name] != "" || len(callers[name]) == 0 || !needsHelp[name] || c06GuardedReaders[name] || c06ProvedHelpers[name] {
 				continue
 			}
 			all := true
@@ -714,6 +761,7 @@ func c06R2(p *Prog, r *Report) {
 			if all {
 				inherited[name] = from
 				changed = true
+
 			}
 		}
 	}
@@ -795,11 +843,11 @@ func c06R2(p *Prog, r *Report) {
 	// every boundary entry must still exist (no stale reasons) — informational only
 	// preconditions left at entry points
 	documented := map[string][]string{
-		"ss2022.ValidateUnixEpochTimestamp":      {"len(P0) - 8"},
+		"ss2022.ValidateUnixEpochTimestamp":       {"len(P0) - 8"},
 		"ss2022.ParseTCPRequestFixedLengthHeader": {"len(P0) - 1", "len(P0) - 9", "len(P0) - 11"},
-		"ss2022.ParseTCPResponseHeader":          {"len(P0) - 1", "cap(P0) - 9", "cap(P0) - len(P2) - 9", "len(P0) - len(P2) - 11", "len(P0) - len(P2) - 9"},
-		"ss2022.ParseSessionIDAndPacketID":       {"len(P0) - 8", "len(P0) - 16"},
-		"socks5.ValidatePacketHeader":            {"len(P0) - 3"},
+		"ss2022.ParseTCPResponseHeader":           {"len(P0) - 1", "cap(P0) - 9", "cap(P0) - len(P2) - 9", "len(P0) - len(P2) - 11", "len(P0) - len(P2) - 9"},
+		"ss2022.ParseSessionIDAndPacketID":        {"len(P0) - 8", "len(P0) - 16"},
+		"socks5.ValidatePacketHeader":             {"len(P0) - 3"},
 	}
 	var names []string
 	for _, fc := range fcs {
@@ -884,16 +932,16 @@ func c06CalleeOf(o *boundsOb) string {
 
 func c06Explain(o *boundsOb) string {
 	what := map[string]string{
-		"index-hi":       "index may be >= len",
-		"index-lo":       "index may be negative",
-		"slice-hi":       "slice bound may exceed the capacity/length",
-		"slice-lo":       "slice start may be negative",
-		"slice-order":    "slice start may exceed its end",
-		"slice-max":      "slice max may exceed the capacity",
-		"to-array":       "slice may be shorter than the array it is converted to",
-		"make-len":       "make length may be negative",
-		"unsafe-extent":  "unsafe extent may exceed the backing slice",
-		"callee-needs":   "argument may be shorter than the callee reads/writes",
+		"index-hi":          "index may be >= len",
+		"index-lo":          "index may be negative",
+		"slice-hi":          "slice bound may exceed the capacity/length",
+		"slice-lo":          "slice start may be negative",
+		"slice-order":       "slice start may exceed its end",
+		"slice-max":         "slice max may exceed the capacity",
+		"to-array":          "slice may be shorter than the array it is converted to",
+		"make-len":          "make length may be negative",
+		"unsafe-extent":     "unsafe extent may exceed the backing slice",
+		"callee-needs":      "argument may be shorter than the callee reads/writes",
 		"panic-unreachable": "a designed panic is reachable",
 	}
 	k := o.Kind
@@ -973,4 +1021,151 @@ func c06R4(p *Prog, r *Report) {
 		})
 	}
 	r.OK(rule, "wire-facing:no-recover", "module", fmt.Sprintf("%d recover sites", n))
+}
+
+// c06TypedPool proves `<pool>.Get().(T)` safe: <pool> is a sync.Pool field (or variable); every
+// value stored into it anywhere in the module is a composite literal whose New function returns,
+// on every return, a value of static type T; and every Put on that field passes an argument of
+// static type T. A pool that is never assigned (New == nil) is refused: Get would return nil.
+func c06TypedPool(p *Prog, fc *FuncCtx, ta *ast.TypeAssertExpr) (string, bool) {
+	info := fc.Info()
+	call, ok := ast.Unparen(fc.producer(ta.X)).(*ast.CallExpr)
+	if !ok {
+		return "", false
+	}
+	fn := Callee(info, call)
+	if fn == nil || fn.FullName() != "(*sync.Pool).Get" {
+		return "", false
+	}
+	sel := ast.Unparen(call.Fun).(*ast.SelectorExpr)
+	pool := fieldOrVar(info, sel.X)
+	if pool == nil {
+		return "", false
+	}
+	want := info.TypeOf(ta.Type)
+	nNew, nPut := 0, 0
+	good := true
+	checkLit := func(pi *types.Info, e ast.Expr) {
+		cl, isCL := ast.Unparen(e).(*ast.CompositeLit)
+		if !isCL {
+			good = false
+			return
+		}
+		found := false
+		for _, el := range cl.Elts {
+			kv, isKV := el.(*ast.KeyValueExpr)
+			if !isKV {
+				good = false
+				continue
+			}
+			if k, isID := kv.Key.(*ast.Ident); !isID || k.Name != "New" {
+				continue
+			}
+			lit, isLit := ast.Unparen(kv.Value).(*ast.FuncLit)
+			if !isLit {
+				good = false
+				continue
+			}
+			found = true
+			nRet := 0
+			inspectNoLit(lit.Body, func(n ast.Node) bool {
+				if rs, isRet := n.(*ast.ReturnStmt); isRet {
+					nRet++
+					if len(rs.Results) != 1 || !types.Identical(pi.TypeOf(rs.Results[0]), want) {
+						good = false
+					}
+				}
+				return true
+			})
+			if nRet == 0 {
+				good = false
+			}
+		}
+		if !found {
+			good = false
+		}
+		nNew++
+	}
+	for _, pkg := range p.All {
+		if pkg.Syntax == nil || pkg.Types != pool.Pkg() {
+			continue
+		}
+		pi := pkg.TypesInfo
+		for _, f := range pkg.Syntax {
+			ast.Inspect(f, func(n ast.Node) bool {
+				switch x := n.(type) {
+				case *ast.KeyValueExpr:
+					if k, isID := x.Key.(*ast.Ident); isID && pi.Uses[k] == pool {
+						checkLit(pi, x.Value)
+					}
+				case *ast.AssignStmt:
+					for i, l := range x.Lhs {
+						if fieldOrVar(pi, l) == pool {
+							if len(x.Rhs) == len(x.Lhs) {
+								checkLit(pi, x.Rhs[i])
+							} else {
+								good = false
+							}
+						}
+					}
+				case *ast.ValueSpec:
+					for i, id := range x.Names {
+						if pi.Defs[id] == pool && i < len(x.Values) {
+							checkLit(pi, x.Values[i])
+						}
+					}
+				case *ast.UnaryExpr:
+					if x.Op == token.AND && fieldOrVar(pi, x.X) == pool {
+						good = false // address escapes: other code may Put anything
+					}
+				case *ast.CallExpr:
+					if s2, isSel := ast.Unparen(x.Fun).(*ast.SelectorExpr); isSel && fieldOrVar(pi, s2.X) == pool {
+						if f2 := Callee(pi, x); f2 != nil && f2.FullName() == "(*sync.Pool).Put" {
+							nPut++
+							if len(x.Args) != 1 || !types.Identical(pi.TypeOf(x.Args[0]), want) {
+								good = false
+							}
+						}
+					}
+				}
+				return true
+			})
+		}
+	}
+	if !good || nNew == 0 {
+		return "", false
+	}
+	return fmt.Sprintf("typed pool: all %d initialisations of the pool have a New that returns %s on every return, and all %d Put calls pass that type", nNew, want, nPut), true
+}
+
+// fieldOrVar returns the variable or struct field an expression denotes (x, s.f, (*p).f).
+func fieldOrVar(info *types.Info, e ast.Expr) types.Object {
+	switch x := ast.Unparen(e).(type) {
+	case *ast.Ident:
+		return objOf(info, x)
+	case *ast.SelectorExpr:
+		if sel, ok := info.Selections[x]; ok && sel.Kind() == types.FieldVal {
+			return sel.Obj()
+		}
+		return info.Uses[x.Sel]
+	case *ast.StarExpr:
+		return fieldOrVar(info, x.X)
+	}
+	return nil
+}
+
+// producer follows a local with a single definition to the expression (or, for a tuple
+// assignment, the call) that produced it.
+func (fc *FuncCtx) producer(e ast.Expr) ast.Expr {
+	e = fc.Resolve(e)
+	if id, ok := ast.Unparen(e).(*ast.Ident); ok {
+		if obj := objOf(fc.Info(), id); obj != nil {
+			if rhs, _, _, ok := fc.SoleDefRHS(obj); ok {
+				if _, isCall := ast.Unparen(rhs).(*ast.CallExpr); isCall {
+					return rhs
+				}
+			}
+		}
+	}
+	return e
 }
